@@ -28,11 +28,15 @@ Definition register (st : astate) (r : ref) : astate * list event :=
   let i := a_next st in
   let st := mkA s (a_cfg st) (a_reg st) (i + 1) in
   let q := c_req (l_cmd (getl s r)) in
+  (* the lock object was released before its record was handled (a lock without a hold, Expried = 0, pushed for the
+     value it carries): lock.command == nil, nothing to register *)
+  match aget (store s) r with None => (st, []) | Some _ =>
   if negb (leader s) || reg_has_req (a_reg st) q then
     let '(s', ev) := finish (do_ack s r false) in
     (mkA s' (a_cfg st) (a_reg st) (a_next st), ev)
   else
-    (mkA (updl s r (fun l => l <| l_ack := a_cfg st |>)) (a_cfg st) (a_reg st ++ [(i, (q, r))]) (a_next st), []).
+    (mkA (updl s r (fun l => l <| l_ack := a_cfg st |>)) (a_cfg st) (a_reg st ++ [(i, (q, r))]) (a_next st), [])
+  end.
 
 (* registrations for the lock-carrying LOCK records of an event list, in queue order; a failed registration runs
    DoAckLock(false), whose own events are appended to the output and whose records are processed in turn *)
